@@ -1,5 +1,6 @@
 import Driver.Json
 import Driver.Tree
+import Driver.History
 /-!
 `kpdriver`: reads one JSON case per line on stdin, runs the Lean model (and, where it differs, the reference
 specification) on the case's inputs and prints one JSON line per case:
@@ -11,6 +12,7 @@ open Lean Kp.Driver
 def dispatch (op : String) (j : Json) : R Json :=
   match op with
   | "tree" => opTree j
+  | "history" => opHistory j
   | _ => throw s!"unknown op {op}"
 
 def handleLine (line : String) : String :=
